@@ -28,6 +28,9 @@ Clause(c) ==
   ELSE IF \E a \in 1..N(c) : c.npixfit[a] # Cardinality(Window(c, a) \ PixSetOf(c.mask)) THEN "npixfit_counts_unmasked_window_pixels"
   ELSE IF \E a \in 1..N(c) : (c.flags[a] % 2 = 1) # (c.npixfit[a] < c.fit[1] * c.fit[2]) THEN "flag_1_iff_window_incomplete"
   ELSE IF \E a \in 1..N(c) : ((c.flags[a] \div 4) % 2 = 1) # (c.flux_fit[a] <= 0) THEN "flag_4_iff_non_positive_flux"
+  \* flag 32: the fitted position sits on a bound of its xy_bounds box (gap in 1e-9 px; between 1e-9 and 1e-6 px is a don't-care)
+  ELSE IF \E a \in 1..N(c) : c.bound_gap[a] >= 0 /\ c.bound_gap[a] <= 1 /\ (c.flags[a] \div 32) % 2 = 0 THEN "flag_32_when_fit_ends_on_a_bound"
+  ELSE IF \E a \in 1..N(c) : (c.bound_gap[a] < 0 \/ c.bound_gap[a] > 1000) /\ (c.flags[a] \div 32) % 2 = 1 THEN "flag_32_only_when_fit_ends_on_a_bound"
   ELSE IF \E a \in 1..N(c) : c.fixed_changed[a] THEN "fixed_parameters_keep_initial_value"
   \* recovery of the rendered values (sources whose window is complete and unmasked, i.e. well constrained)
   ELSE IF \E a \in 1..N(c) : c.check_recovery /\ (Abs(c.x_fit[a] - c.x_true[a]) > c.tol_pos \/ Abs(c.y_fit[a] - c.y_true[a]) > c.tol_pos) THEN "recovers_rendered_positions"
